@@ -368,6 +368,7 @@ func ruleOwnParams(c *Ctx, r *R) {
 		forms := map[string]bool{}
 		var details []string
 		otherUse := ""
+		var heldUse ownUse
 		for _, u := range uses {
 			switch u.kind {
 			case "next", "close", "defer-close":
@@ -377,6 +378,9 @@ func ruleOwnParams(c *Ctx, r *R) {
 				if allocReturned(u.strct) {
 					forms["wrapped"] = true
 					details = append(details, "FIELD "+typeShort(u.strct.Type())+"."+u.field)
+				} else if heldByHelperObject(c, op, u) != nil {
+					forms["held"] = true
+					heldUse = u
 				} else {
 					otherUse = "stored into a struct that is not returned"
 				}
@@ -440,6 +444,8 @@ func ruleOwnParams(c *Ctx, r *R) {
 			r.discharged(key, op.param.Pos(), strings.Join(details, ", "))
 		case "goroutine":
 			ruleOwnGoroutine(c, r, op, key, uses)
+		case "held":
+			ruleOwnHeld(c, r, op, key, heldUse)
 		}
 	}
 }
@@ -635,6 +641,14 @@ func ruleOwnGoroutine(c *Ctx, r *R, op ownedParam, key string, uses []ownUse) {
 		}
 	}
 	// the returned stream's Close must cancel and wait
+	if wrapperCloseCancelsAndWaits(c, r, op, key) {
+		r.discharged(key, op.param.Pos(), "goroutine-owned ("+started+"): sole user, deferred Close dominates Next, the returned stream's Close cancels then waits")
+	}
+}
+
+// wrapperCloseCancelsAndWaits: the stream op.fn returns (or, for a method that starts the goroutine, its receiver) has a Close
+// that cancels the goroutines' context and then waits for them. Reports the violation itself.
+func wrapperCloseCancelsAndWaits(c *Ctx, r *R, op ownedParam, key string) bool {
 	var wrapT types.Type
 	if ret := returnedStruct(op.fn); ret != nil {
 		wrapT = ret.Type()
@@ -644,28 +658,28 @@ func ruleOwnGoroutine(c *Ctx, r *R, op ownedParam, key string, uses []ownUse) {
 	}
 	if wrapT == nil {
 		r.violated(key, op.fn.Pos(), "cannot find the returned wrapper whose Close waits for the goroutine")
-		return
+		return false
 	}
 	ret := typedNil{wrapT}
 	closeFn := c.fn(relOfPkg(op.fn.Pkg) + "." + typeShort(ret.Type()) + ".Close")
 	if closeFn == nil {
 		r.violated(key, op.fn.Pos(), "returned type "+typeShort(ret.Type())+" has no Close method in the package")
-		return
+		return false
 	}
 	waits, cancels, order := closeWaits(closeFn)
 	if !waits {
 		r.violated(key, closeFn.Pos(), typeShort(ret.Type())+".Close does not wait (WaitGroup.Wait / errgroup.Wait) for the goroutine that closes the source")
-		return
+		return false
 	}
 	if !cancels {
 		r.violated(key, closeFn.Pos(), typeShort(ret.Type())+".Close does not cancel the goroutines' context before waiting")
-		return
+		return false
 	}
 	if !order {
 		r.violated(key, closeFn.Pos(), typeShort(ret.Type())+".Close waits before it cancels: the wait can never finish")
-		return
+		return false
 	}
-	r.discharged(key, op.param.Pos(), "goroutine-owned ("+started+"): sole user, deferred Close dominates Next, "+typeShort(ret.Type())+".Close cancels then waits")
+	return true
 }
 
 func relOfPkg(p *ssa.Package) string {
@@ -936,3 +950,213 @@ func isBorrower(c *Ctx, fn *ssa.Function, p *ssa.Parameter) bool {
 type typedNil struct{ t types.Type }
 
 func (t typedNil) Type() types.Type { return t.t }
+
+// ---- owned streams held by a local helper object ---------------------------------------------------------------------------
+//
+// m := &merger[T]{in: in, …}; for i := range in { go func() { defer wg.Done(); m.forward(i) }() }: the owned slice is stored in
+// a field of an unexported helper struct that is NOT what the function returns; the only code that touches the field's
+// elements is one method H of that struct (m.in[i] with i a parameter of H), H closes its element on every path with a Close
+// deferred in its entry block, H is called from exactly one function literal of the owning function, that literal is started
+// as an accounted goroutine once per element, and the returned stream's Close cancels and waits.
+
+type heldInfo struct {
+	typ     *types.Named
+	helper  *ssa.Function
+	idx     *ssa.Parameter
+	elems   map[ssa.Value]bool // loads of m.in[i] in the helper
+	problem string
+}
+
+func heldByHelperObject(c *Ctx, op ownedParam, u ownUse) *heldInfo {
+	nt, ok := derefType(u.strct.Type()).(*types.Named)
+	if !ok || nt.Obj().Pkg() == nil || op.fn.Pkg == nil || nt.Obj().Pkg() != op.fn.Pkg.Pkg || token.IsExported(nt.Obj().Name()) {
+		return nil
+	}
+	hi := &heldInfo{typ: nt, elems: map[ssa.Value]bool{}}
+	for _, f := range c.Funcs {
+		if rootFn(f).Pkg != op.fn.Pkg {
+			continue
+		}
+		instrs(f, func(_ *ssa.BasicBlock, _ int, in ssa.Instruction) {
+			ld, ok := in.(*ssa.UnOp)
+			if !ok || ld.Op != token.MUL {
+				return
+			}
+			fa, ok := ld.X.(*ssa.FieldAddr)
+			if !ok || fieldName(fa.X.Type(), fa.Field) != u.field {
+				return
+			}
+			if t2, ok := derefType(fa.X.Type()).(*types.Named); !ok || t2.Origin() != nt.Origin() {
+				return
+			}
+			for _, ref := range refsOf(ld) {
+				switch x := ref.(type) {
+				case *ssa.DebugRef:
+				case *ssa.Call:
+					if bi, ok := x.Call.Value.(*ssa.Builtin); !ok || bi.Name() != "len" {
+						hi.problem = "the held streams are passed to " + calleeName(&x.Call) + " in " + funcShort(f)
+					}
+				case *ssa.IndexAddr:
+					p, isP := resolveVal(x.Index).(*ssa.Parameter)
+					if !isP || f.Parent() != nil || (hi.helper != nil && hi.helper != f) || (hi.idx != nil && hi.idx != p) {
+						hi.problem = "elements of the held slice are used in more than one place (" + funcShort(f) + ")"
+						return
+					}
+					hi.helper, hi.idx = f, p
+					for _, r2 := range refsOf(x) {
+						if eld, ok := r2.(*ssa.UnOp); ok && eld.Op == token.MUL {
+							for cp := range copiesOf(eld) {
+								hi.elems[cp] = true
+							}
+						} else if _, isDbg := r2.(*ssa.DebugRef); !isDbg {
+							hi.problem = "an element of the held slice is overwritten or its address escapes in " + funcShort(f)
+						}
+					}
+				default:
+					hi.problem = "the held slice is used by " + ref.String() + " in " + funcShort(f)
+				}
+			}
+		})
+	}
+	if hi.helper == nil {
+		return nil
+	}
+	return hi
+}
+
+func ruleOwnHeld(c *Ctx, r *R, op ownedParam, key string, u ownUse) {
+	hi := heldByHelperObject(c, op, u)
+	if hi == nil {
+		r.undecided(key, op.param.Pos(), "unrecognised use of an owned stream: stored into a struct that is not returned")
+		return
+	}
+	if hi.problem != "" {
+		r.violated(key, op.param.Pos(), "owned streams held in "+typeShort(u.strct.Type())+"."+u.field+": "+hi.problem)
+		return
+	}
+	h := hi.helper
+	// the helper closes its element on every path, with a Close deferred in its entry block
+	okc, badRet, useAfter, dbl := closedOnAllPaths(h, func(v ssa.Value) bool { return hi.elems[v] })
+	switch {
+	case !okc:
+		r.violated(key, retPos(badRet), "a path through "+funcShort(h)+" returns without Close on its element of "+op.param.Name())
+		return
+	case useAfter != nil:
+		r.violated(key, posOf(useAfter), "Next/Peek after Close in "+funcShort(h))
+		return
+	case dbl != nil:
+		r.violated(key, posOf(dbl), "second Close on one path of "+funcShort(h))
+		return
+	}
+	deferred := false
+	for _, in := range h.Blocks[0].Instrs {
+		if d, ok := in.(*ssa.Defer); ok && d.Call.IsInvoke() && d.Call.Method.Name() == "Close" && hi.elems[d.Call.Value] {
+			deferred = true
+		}
+	}
+	if !deferred {
+		r.violated(key, h.Pos(), funcShort(h)+" must `defer` the Close of its element unconditionally, before the first Next")
+		return
+	}
+	// exactly one call site, in a function literal of the owner, on the object that holds the streams
+	sites := callCommonsOf(c, h)
+	var site *ssa.Call
+	for _, f := range withAnon(op.fn) {
+		instrs(f, func(_ *ssa.BasicBlock, _ int, in ssa.Instruction) {
+			if call, ok := in.(*ssa.Call); ok && staticCallee(&call.Call) != nil && origin(staticCallee(&call.Call)) == origin(h) {
+				site = call
+			}
+		})
+	}
+	if len(sites) != 1 || site == nil || site.Parent().Parent() != op.fn {
+		r.violated(key, h.Pos(), funcShort(h)+", which owns one element of "+op.param.Name()+" per call, must be called from exactly one goroutine literal of "+funcShort(op.fn))
+		return
+	}
+	onObj := false
+	for _, lf := range valueLeaves(site.Call.Args[0], nil, 0) {
+		if lf.v == ssa.Value(u.strct) {
+			onObj = true
+		}
+	}
+	if !onObj {
+		r.violated(key, site.Pos(), "the helper is not called on the object that holds the owned streams")
+		return
+	}
+	g := site.Parent()
+	// how is the literal started?
+	started := ""
+	var goInstr ssa.Instruction
+	instrs(op.fn, func(_ *ssa.BasicBlock, _ int, in ssa.Instruction) {
+		mc, ok := in.(*ssa.MakeClosure)
+		if !ok || mc.Fn != ssa.Value(g) || mc.Referrers() == nil {
+			return
+		}
+		for _, ref := range *mc.Referrers() {
+			switch x := ref.(type) {
+			case *ssa.Go:
+				started, goInstr = "go", x
+			case *ssa.Call:
+				if cal := x.Call.StaticCallee(); cal != nil && cal.Name() == "Go" && cal.Pkg != nil && strings.HasSuffix(cal.Pkg.Pkg.Path(), "errgroup") {
+					started, goInstr = "errgroup", x
+				} else if cal := staticCallee(&x.Call); cal != nil && cal.Blocks != nil && cal.Parent() == nil {
+					for ai, a := range x.Call.Args {
+						if a == ssa.Value(mc) && goLauncher(cal, ai) {
+							started, goInstr = "launcher", x
+						}
+					}
+				}
+			}
+		}
+	})
+	if started == "" {
+		r.violated(key, g.Pos(), "the function literal that calls "+funcShort(h)+" is not started as a goroutine (go / errgroup.Go)")
+		return
+	}
+	if started == "go" {
+		// wg.Done() deferred before the helper runs, so it follows the helper's own deferred Close
+		doneFirst := false
+		for _, in := range g.Blocks[0].Instrs {
+			if d, ok := in.(*ssa.Defer); ok {
+				if cal := d.Call.StaticCallee(); cal != nil && cal.Name() == "Done" && cal.Signature.Recv() != nil && isNamedType(cal.Signature.Recv().Type(), "sync", "WaitGroup") {
+					doneFirst = true
+				}
+			}
+			if in == ssa.Instruction(site) {
+				break
+			}
+		}
+		if !doneFirst || site.Block() != g.Blocks[0] {
+			r.violated(key, g.Pos(), "the goroutine must `defer wg.Done()` before it calls "+funcShort(h)+": the returned stream's Close could otherwise return with a source still open")
+			return
+		}
+	}
+	if op.kind == 2 {
+		if !inLoopBoundedByLen(goInstr, op.param) {
+			r.violated(key, posOf(goInstr), "goroutines owning the elements of "+op.param.Name()+" are not started by a loop over 0..len("+op.param.Name()+")")
+			return
+		}
+		// the element index handed to the helper is the loop's own index (a per-iteration copy), not a constant
+		hidx := -1
+		for k, p := range h.Params {
+			if p == hi.idx {
+				hidx = k
+			}
+		}
+		varies := false
+		if hidx >= 0 && hidx < len(site.Call.Args) {
+			for _, lf := range valueLeaves(site.Call.Args[hidx], nil, 0) {
+				// (the loop variable's phi is taken apart into its start value and its increment)
+				if _, isK := lf.v.(*ssa.Const); !isK {
+					varies = true
+				}
+			}
+		}
+		if !varies {
+			r.violated(key, site.Pos(), "the element index handed to "+funcShort(h)+" is not the spawn loop's index: two goroutines would own the same stream and others none")
+			return
+		}
+	}
+	if wrapperCloseCancelsAndWaits(c, r, op, key) {
+		r.discharged(key, op.param.Pos(), "goroutine-owned through "+funcShort(h)+" ("+started+"): one call per element, deferred Close, the returned stream's Close cancels then waits")
+	}
+}
